@@ -797,95 +797,6 @@ theorem vdimsSet_some {n : Nat} {new : List String} {r : Option (List String)} (
       injection h with h
       exact ⟨h.symm, by omega, by simpa using h2⟩
 
-theorem getD_setAt_same {α} (l : List α) (k : Nat) (v d : α) (hk : k < l.length) : (setAt l k v).getD k d = v := by
-  induction l generalizing k with
-  | nil => simp at hk
-  | cons x xs ih =>
-    cases k with
-    | zero => simp [setAt]
-    | succ k => simp only [setAt, List.getD_cons_succ]; exact ih k (by simpa using hk)
-
-theorem getD_setAt_ne {α} (l : List α) (k a : Nat) (v d : α) (hne : a ≠ k) : (setAt l k v).getD a d = l.getD a d := by
-  induction l generalizing k a with
-  | nil => simp [setAt]
-  | cons x xs ih =>
-    cases k with
-    | zero =>
-      cases a with
-      | zero => exact absurd rfl hne
-      | succ a => simp [setAt]
-    | succ k =>
-      cases a with
-      | zero => simp [setAt]
-      | succ a => simp only [setAt, List.getD_cons_succ]; exact ih k a (by omega)
-
-theorem setAt_length {α} (l : List α) (k : Nat) (v : α) : (setAt l k v).length = l.length := by
-  induction l generalizing k with
-  | nil => simp [setAt]
-  | cons x xs ih => cases k <;> simp [setAt, ih]
-
-theorem setAt_comm {α} (l : List α) (a b : Nat) (u v : α) (hne : a ≠ b) :
-    setAt (setAt l a u) b v = setAt (setAt l b v) a u := by
-  induction l generalizing a b with
-  | nil => simp [setAt]
-  | cons x xs ih =>
-    cases a with
-    | zero =>
-      cases b with
-      | zero => exact absurd rfl hne
-      | succ b => simp [setAt]
-    | succ a =>
-      cases b with
-      | zero => simp [setAt]
-      | succ b => simp only [setAt]; rw [ih a b (by omega)]
-
-theorem d1At_congr (h : Rat) (L : Nat) (f g : Nat → Rat) (i : Nat) (hfg : ∀ k, k < L → f k = g k) (hi : i < L) :
-    d1At h L f i = d1At h L g i := by
-  unfold d1At
-  by_cases h1 : L < 2
-  · simp [h1]
-  · by_cases h2 : L = 2
-    · simp only [h1, h2, if_false, if_true]
-      rw [hfg 1 (by omega), hfg 0 (by omega)]
-    · simp only [h1, h2, if_false]
-      by_cases h3 : i = 0
-      · simp only [h3, if_true]
-        rw [hfg 0 (by omega), hfg 1 (by omega), hfg 2 (by omega)]
-      · by_cases h4 : i = L - 1
-        · simp only [h3, h4, if_false, if_true]
-          have : ¬ (L - 1 = 0) := by omega
-          simp only [this, if_false]
-          rw [hfg (L - 1) (by omega), hfg (L - 2) (by omega), hfg (L - 3) (by omega)]
-        · simp only [h3, h4, if_false]
-          rw [hfg (i + 1) (by omega), hfg (i - 1) (by omega)]
-
-theorem d2At_congr (h : Rat) (L : Nat) (f g : Nat → Rat) (i : Nat) (hfg : ∀ k, k < L → f k = g k) (hi : i < L) :
-    d2At h L f i = d2At h L g i := by
-  unfold d2At
-  by_cases h1 : L < 3
-  · simp [h1]
-  · by_cases h2 : L = 3
-    · simp only [h1, h2, if_false, if_true]
-      rw [hfg 0 (by omega), hfg 1 (by omega), hfg 2 (by omega)]
-    · simp only [h1, h2, if_false]
-      by_cases h3 : i = 0
-      · simp only [h3, if_true]
-        rw [hfg 0 (by omega), hfg 1 (by omega), hfg 2 (by omega), hfg 3 (by omega)]
-      · by_cases h4 : i = L - 1
-        · simp only [h3, h4, if_false, if_true]
-          have : ¬ (L - 1 = 0) := by omega
-          simp only [this, if_false]
-          rw [hfg (L - 1) (by omega), hfg (L - 2) (by omega), hfg (L - 3) (by omega), hfg (L - 4) (by omega)]
-        · simp only [h3, h4, if_false]
-          rw [hfg (i + 1) (by omega), hfg i (by omega), hfg (i - 1) (by omega)]
-
-theorem dAt_congr (o : Nat) (h : Rat) (L : Nat) (f g : Nat → Rat) (i : Nat) (hfg : ∀ k, k < L → f k = g k) (hi : i < L) :
-    dAt o h L f i = dAt o h L g i := by
-  unfold dAt
-  split
-  · exact d1At_congr h L f g i hfg hi
-  · exact d2At_congr h L f g i hfg hi
-
 /-- fully valid line = the table of its values, each tagged valid -/
 theorem tab_all_valid (n : Nat) (g : Nat → Rat) (v : Nat → Bool) (hv : ∀ j, j < n → v j = true) :
     (tab n fun j => (g j, v j)) = (tab n g).map (·, true) := by
